@@ -68,6 +68,12 @@ pub static mut G_ALLOCS: usize = 0; // alloc() calls (including failed ones)
 pub static mut G_DEALLOCS: usize = 0;
 pub static mut G_OK: bool = true; // every dealloc matched a live entry with identical ptr/size/align
 pub static mut G_FAIL_AT: usize = 0; // k-th alloc() call returns null (0 = never)
+pub static mut OD_N: usize = 0;
+/// stand-in for std::process::abort in ONE ordering harness: checks the trace at the moment of the abort
+pub fn ghost_abort() -> ! {
+    assert!(crate::vrt::atomic::od_inc(unsafe { OD_N }), "OD-inc at abort: the overflow test must follow a single RMW increment that saw the old count");
+    panic!("VRT abort reached")
+}
 pub static mut G_FORBID_ALLOC: bool = false; // obligation "refused before allocating": any alloc() is a failed check
 
 pub unsafe fn ghost_alloc(layout: Layout) -> *mut u8 {
@@ -630,6 +636,155 @@ pub mod atomic {
     pub fn ev(i: usize) -> Ev {
         unsafe { TRACE[i] }
     }
+    // ---- ordering-discipline predicates over the trace of ONE library call (DESIGN §5 C02) ----
+    fn is_count_ev(k: K) -> bool {
+        k == K::Load || k == K::Store || k == K::Add || k == K::Sub || k == K::Cas || k == K::Other
+    }
+    /// the protocol has the recognised shape for a release: fences/nothing, then ONE RMW decrement,
+    /// then only loads/fences/payload-drop/dealloc events. Anything else (CAS loop, stores, second
+    /// decrement) is "unrecognised": the check answers undecided, not violated.
+    pub fn od_dec_shape() -> bool {
+        unsafe {
+            if T_OVERFLOW {
+                return false;
+            }
+            let mut i = 0;
+            let mut subs = 0;
+            let mut ok = true;
+            while i < TLEN {
+                let e = TRACE[i];
+                if e.k == K::Sub {
+                    subs += 1;
+                } else if e.k == K::Store || e.k == K::Add || e.k == K::Cas || e.k == K::Other {
+                    ok = false;
+                } else if e.k == K::Load && subs == 0 {
+                    ok = false;
+                }
+                i += 1;
+            }
+            ok && subs == 1
+        }
+    }
+    /// OD-dec: release-class decrement that saw `n`; if n > 1 nothing at all afterwards; if n == 1 an
+    /// acquire-class event precedes every payload drop and the (single) dealloc.
+    pub fn od_dec_orders(n: usize, want_payload_drops: usize) -> bool {
+        unsafe {
+            let mut i = 0;
+            let mut rel_fence = false;
+            let mut seen_sub = false;
+            let mut acq = false;
+            let mut ok = true;
+            let mut deallocs = 0;
+            let mut pdrops = 0;
+            while i < TLEN {
+                let e = TRACE[i];
+                if !seen_sub {
+                    if e.k == K::Fence && release_class(e.ord) {
+                        rel_fence = true;
+                    }
+                    if e.k == K::Sub {
+                        seen_sub = true;
+                        ok = ok && e.seen == n && (release_class(e.ord) || rel_fence);
+                        acq = acquire_class(e.ord);
+                    }
+                    if e.k == K::PayloadDrop || e.k == K::Dealloc {
+                        ok = false;
+                    }
+                } else {
+                    if n != 1 {
+                        ok = false; // no thread touches the value or its count after its release
+                    }
+                    if (e.k == K::Load || e.k == K::Fence) && acquire_class(e.ord) {
+                        acq = true;
+                    }
+                    if e.k == K::PayloadDrop {
+                        pdrops += 1;
+                        ok = ok && acq;
+                    }
+                    if e.k == K::Dealloc {
+                        deallocs += 1;
+                        ok = ok && acq;
+                    }
+                }
+                i += 1;
+            }
+            ok && seen_sub && (n != 1 || (deallocs == 1 && pdrops == want_payload_drops))
+        }
+    }
+    /// OD-inc: the count is modified by exactly one atomic read-modify-write increment that saw `n`
+    pub fn od_inc(n: usize) -> bool {
+        unsafe {
+            let mut i = 0;
+            let mut adds = 0;
+            let mut ok = !T_OVERFLOW;
+            while i < TLEN {
+                let e = TRACE[i];
+                if e.k == K::Add {
+                    adds += 1;
+                    ok = ok && e.seen == n;
+                } else if e.k == K::Store || e.k == K::Sub || e.k == K::Cas || e.k == K::Other || e.k == K::PayloadDrop || e.k == K::Dealloc {
+                    ok = false;
+                }
+                i += 1;
+            }
+            ok && adds == 1
+        }
+    }
+    /// OD-read: no modification of the count, nothing destroyed
+    pub fn od_read_only() -> bool {
+        unsafe {
+            let mut i = 0;
+            let mut ok = !T_OVERFLOW;
+            while i < TLEN {
+                let e = TRACE[i];
+                if e.k != K::Load && e.k != K::Fence {
+                    ok = false;
+                }
+                i += 1;
+            }
+            ok
+        }
+    }
+    /// OD-unique: some acquire-class load of the count saw 1 (or a load that saw 1 followed by an
+    /// acquire fence) — the synchronisation a uniqueness grant needs
+    pub fn od_acquire_saw_one() -> bool {
+        unsafe {
+            let mut i = 0;
+            let mut found = false;
+            let mut relaxed_one = false;
+            while i < TLEN {
+                let e = TRACE[i];
+                if (e.k == K::Load || e.k == K::Cas) && e.seen == 1 {
+                    if acquire_class(e.ord) {
+                        found = true;
+                    } else {
+                        relaxed_one = true;
+                    }
+                }
+                if e.k == K::Fence && acquire_class(e.ord) && relaxed_one {
+                    found = true;
+                }
+                i += 1;
+            }
+            found
+        }
+    }
+    /// no event modifies the count (grant/refusal of a gate itself never does)
+    pub fn od_no_modification() -> bool {
+        unsafe {
+            let mut i = 0;
+            let mut ok = !T_OVERFLOW;
+            while i < TLEN {
+                let e = TRACE[i];
+                if e.k == K::Store || e.k == K::Add || e.k == K::Sub || e.k == K::Other {
+                    ok = false;
+                }
+                i += 1;
+            }
+            ok
+        }
+    }
+
     #[repr(transparent)]
     pub struct AtomicUsize(real::AtomicUsize);
     impl AtomicUsize {
